@@ -16,6 +16,7 @@ func init() {
 	env.Register("C03_FutureCommit", C03_FutureCommit)
 	env.Register("C04_NewViewCommit", C04_NewViewCommit)
 	env.Register("C04_LeaderReproposal", C04_LeaderReproposal)
+	env.Register("C03_LateCommit", C03_LateCommit)
 }
 
 // C04_LeaderReproposal: weighted committee [1,2,3,4]; the correct node 3 (weight 4) accepted and PREPAREd
@@ -92,7 +93,7 @@ func roundWith(n *vNode, me int, net *vNet, h primitives.BlockHeight, b *stub.Bl
 // cache) and commits height 2 with honest traffic. Both certificates must pass strict validation on a peer.
 func C03_FutureCommit() {
 	me := env.Param("me") // 1..3
-	wd := newWorld(me, equalWeights(4))
+	wd := newWorld(me, paramWeights())
 	n := wd.n
 	n.commitErr = false
 	validator := newVNode(wd.reg, wd.net.committee, (me+1)%4, vInstance)
@@ -148,9 +149,9 @@ func C03_FutureCommit() {
 func C04_NewViewCommit() {
 	me := env.Param("me") // 0, 2 or 3
 	mask := env.Param("proofmask")
-	wd := newWorld(me, equalWeights(4))
+	wd := newWorld(me, paramWeights())
 	n, ref := wd.n, wd.ref
-	n.timeout()
+	wd.prefix(env.ParamOr("prefix", 3)) // 3: timed out from a fresh state; 7: holds the (unprepared) view-0 proposal
 	H := primitives.BlockHeight(1)
 	var vs []*symVote
 	var vbs []*protocol.ViewChangeMessageContentBuilder
@@ -275,7 +276,7 @@ func C03_Commits() {
 	honest := env.Param("honest")
 	sym := env.Param("sym")
 	me := env.Param("me")
-	wd := newWorld(me, equalWeights(4))
+	wd := newWorld(me, paramWeights())
 	if me != 0 {
 		wd.prefix(1)
 	} else {
@@ -316,4 +317,48 @@ func sameBlock(a, b *stub.Block) bool {
 		return false
 	}
 	return env.And(a.H == b.H, a.Tag == b.Tag)
+}
+
+// C03_LateCommit: the COMMITs of view 0 are delayed. The node accepted (and, for prepared=1, prepared) the
+// view-0 proposal G, times out `timeouts` times, receives one fully symbolic PREPREPARE (e.g. a validly
+// signed proposal of another block by the Byzantine leader of the later view) and optionally one symbolic
+// PREPARE, and only then the delayed genuine COMMITs for (view 0, G). Whatever it hands to the commit
+// callback must pass strict validation on a peer and satisfy the certified hash.
+func C03_LateCommit() {
+	me := env.Param("me") // 1..3
+	wd := newWorld(me, paramWeights())
+	n := wd.n
+	if env.Param("prepared") == 1 {
+		wd.prefix(2)
+	} else {
+		wd.prefix(1)
+	}
+	validator := newVNode(wd.reg, wd.net.committee, (me+1)%4, vInstance)
+	hash := stub.HashOf(wd.blk)
+	for t := 0; t < env.Param("timeouts"); t++ {
+		n.timeout()
+	}
+	hdr := newSymRef("pp")
+	snd := newSymSender(wd.reg, "pp_s", uint64(hdr.height), hdr.raw)
+	cont := (&protocol.PreprepareContentBuilder{SignedHeader: hdr.b, Sender: snd.b}).Build()
+	s0 := n.snap()
+	n.deliver(interfaces.NewPreprepareMessage(cont, symBlock("pp_blk")).ToConsensusRawMessage())
+	if n.influenced(s0) {
+		env.Reach("C03.late.later_proposal_stored")
+	}
+	if env.Param("prepare") == 1 {
+		n.deliver(symPrepareRaw(wd, "p"))
+	}
+	for i := 0; i < 4; i++ {
+		if i != me {
+			n.deliver(wd.net.cm(i, 1, 0, hash).ToConsensusRawMessage())
+		}
+	}
+	env.Assert("C03.late.committed", len(n.commits) >= 1)
+	if len(n.commits) == 0 {
+		return
+	}
+	env.Reach("C03.late.commit")
+	env.Assert("C03.commit_once", len(n.commits) == 1)
+	wd.checkCommit(n.commits[0], validator)
 }
